@@ -55,6 +55,12 @@ func (ps *PathSum) call(s *psState, f *psFrame, x *ssa.Call) ([]*psOutcome, bool
 				}
 				return nil, false
 			}
+			if ps.trackLinks && (name == "Next" || name == "Prev" || name == "NextExp" || name == "PrevExp") {
+				sym := ps.sym("rd:" + name + "#")
+				ps.emit(s, f, pos, "NodeRead", sym, recv, name)
+				f.vals[x] = sym
+				return nil, false
+			}
 			if nodeAccessors[name] {
 				if info, ok := ps.fresh[recv]; ok {
 					switch name {
@@ -289,6 +295,8 @@ func recvFieldName(cc *ssa.CallCommon) string {
 func (ps *PathSum) callStatic(s *psState, f *psFrame, x ssa.Instruction, callee *ssa.Function, args []string, pos token.Pos) []*psOutcome {
 	o := origin(callee)
 	r := ps.roles
+	iargs := args            // in the callee's current parameter order (for inlining)
+	args = bargs(o, args, true) // in the order the roles and rules know
 	var xv ssa.Value
 	if v, ok := x.(ssa.Value); ok {
 		xv = v
@@ -470,7 +478,7 @@ func (ps *PathSum) callStatic(s *psState, f *psFrame, x ssa.Instruction, callee 
 			return nil
 		}
 		if !hasLoop(o) || ps.inlineLoops[o] {
-			return ps.exec(s, ps.newFrame(o, args, nil, "inline", f))
+			return ps.exec(s, ps.newFrame(o, iargs, nil, "inline", f))
 		}
 	}
 	res := ps.sym("res:" + o.Name() + "#")
